@@ -459,7 +459,7 @@ func (r *runner) locksOp(f []string) string {
 		case sw == "parked" && !conflict:
 			r.hit("C17:"+ls.name+":blocks-without-conflict", ctx)
 		}
-		if sw != sr && !strings.HasPrefix(sw, "panic") {
+		if sw != sr && len(r.hits) == 0 {
 			r.hit("C17:"+ls.name+":differs-from-unsharded", fmt.Sprintf("group: %s, single locker: %s; %s", sw, sr, ctx))
 		}
 		switch sw {
@@ -531,7 +531,7 @@ func (r *runner) locksOp(f []string) string {
 		case !woke && should:
 			r.hit("C17:"+ls.name+":blocked-call-not-released", fmt.Sprintf("thread %d still blocked on %v although nothing conflicts any more: %s", p.t, p.keys, ctx))
 		}
-		if woke != wokeRef {
+		if woke != wokeRef && len(r.hits) == 0 {
 			r.hit("C17:"+ls.name+":differs-from-unsharded", fmt.Sprintf("blocked call of thread %d: group returned=%v, single locker returned=%v; %s", p.t, woke, wokeRef, ctx))
 		}
 		if woke {
